@@ -36,6 +36,10 @@ type pumpReplay struct {
 type pumpScenario struct {
 	Name    string
 	Queries []string // sent one after the other by the application
+	// ErrorPolicy: column c is declared int32 with response_on_fail: error and holds a value that
+	// cannot be revealed; the database streams its answer packet by packet. The first SELECT of c must
+	// be answered with an error, the following statement on unprotected columns with its own rows.
+	ErrorPolicy bool
 }
 
 func pumpScenarios() []pumpScenario {
@@ -46,6 +50,8 @@ func pumpScenarios() []pumpScenario {
 		{Name: "prepare-execute-execute", Queries: []string{"P:select id, c from t", "X", "X"}},
 		// a write through the proxy, then the owner reads it back
 		{Name: "insert-select", Queries: []string{"insert into t (id, plain, c) values (2, 'p2', '" + string(pumpPlain) + "')", "select id, c from t where id = 2"}},
+		// failure policy "error" (skip of the remaining rows) followed at once by another statement
+		{Name: "error-policy-then-select", Queries: []string{"select id, c from t", "select id, plain from t"}, ErrorPolicy: true},
 	}
 }
 
@@ -59,6 +65,9 @@ func (sc pumpScenario) build(env *sess.MyEnv, ks *filesystem.KeyStore, col myche
 		}
 		db := mycheck.NewDB(col.DBType, 0)
 		db.Tables["t"].Rows = [][][]byte{{[]byte("1"), []byte("p1"), envelope}}
+		if sc.ErrorPolicy {
+			db.Tables["t"].Rows = [][][]byte{{[]byte("1"), []byte("p1"), []byte("not an envelope")}, {[]byte("2"), []byte("p2"), []byte("garbage too")}}
+		}
 		ms, err := sess.NewMySchedSession(env, fx.Alpha, s)
 		if err != nil {
 			ev.Fatalf("pump phase: session: %v", err)
@@ -161,6 +170,16 @@ func (sc pumpScenario) build(env *sess.MyEnv, ks *filesystem.KeyStore, col myche
 				} else {
 					out = db.Respond([]sess.MyPacket{p})
 				}
+				if sc.ErrorPolicy {
+					// packet by packet: the proxy may react (error to the client, next command) while
+					// the rest of the answer is still on its way
+					for _, op := range out {
+						if _, err := ms.DBEnd.Write(sess.MyJoin([]sess.MyPacket{op})); err != nil {
+							return
+						}
+					}
+					continue
+				}
 				if _, err := ms.DBEnd.Write(sess.MyJoin(out)); err != nil {
 					return
 				}
@@ -176,6 +195,20 @@ func (sc pumpScenario) build(env *sess.MyEnv, ks *filesystem.KeyStore, col myche
 			}
 			if dbErr != "" {
 				fails = append(fails, "the database side broke: "+dbErr)
+			}
+			if sc.ErrorPolicy {
+				if appErr != "" || len(answers) != 2 {
+					return append(fails, fmt.Sprintf("%d of 2 statements were answered", len(answers)))
+				}
+				first, second := answers[0], answers[1]
+				if len(first) != 1 || first[0].Err == nil || len(first[0].Rows) != 0 {
+					fails = append(fails, "policy error: the SELECT of the unrevealable column was not answered with exactly an error")
+				}
+				if len(second) != 1 || second[0].Err != nil || len(second[0].Rows) != 2 || len(second[0].Columns) != 2 ||
+					string(second[0].Rows[0][1]) != "p1" || string(second[0].Rows[1][1]) != "p2" {
+					fails = append(fails, "the statement after the refused one was not answered with its own rows")
+				}
+				return fails
 			}
 			want := 0
 			for _, q := range sc.Queries {
@@ -245,6 +278,17 @@ func mysqlPumpPhase(r *ev.Run, ks *filesystem.KeyStore, thorough bool) {
 	if err != nil {
 		ev.Fatalf("pump phase: env: %v", err)
 	}
+	errCol := mycheck.Typed("acrablock", "int32", "error", nil)
+	errEnv, err := sess.NewMyEnv(ks, sess.MyEnvOptions{EncryptorConfigYAML: mycheck.ConfigYAML(errCol, nil)})
+	if err != nil {
+		ev.Fatalf("pump phase: env (error policy): %v", err)
+	}
+	pick := func(sc pumpScenario) (*sess.MyEnv, mycheck.Col) {
+		if sc.ErrorPolicy {
+			return errEnv, errCol
+		}
+		return env, col
+	}
 	// (an execution of this phase runs both pumps of a real session: about a millisecond; the
 	// explorer is sequential. quick: at most 1 preemption; thorough: 2)
 	maxBound := 1
@@ -257,7 +301,8 @@ func mysqlPumpPhase(r *ev.Run, ks *filesystem.KeyStore, thorough bool) {
 		r.LoadReplay(&rp)
 		for _, sc := range scs {
 			if sc.Name == rp.Scenario {
-				e := &sched.Explorer{Scenario: sc.build(env, ks, col), Bound: rp.Bound, MaxSteps: 4000}
+				pe, pc := pick(sc)
+				e := &sched.Explorer{Scenario: sc.build(pe, ks, pc), Bound: rp.Bound, MaxSteps: 4000}
 				for _, f := range e.Replay(rp.Choices) {
 					fmt.Println("replayed:", f)
 					r.Violation("C04/mysql-pumps/"+sc.Name+"/"+pumpKey(f), f, rp)
@@ -273,7 +318,8 @@ func mysqlPumpPhase(r *ev.Run, ks *filesystem.KeyStore, thorough bool) {
 				r.Capped(fmt.Sprintf("pump interleavings %s: preemption bound %d not started", sc.Name, bound))
 				break
 			}
-			e := &sched.Explorer{Scenario: sc.build(env, ks, col), Bound: bound, Stop: r.Expired, MaxSteps: 4000,
+			pe, pc := pick(sc)
+			e := &sched.Explorer{Scenario: sc.build(pe, ks, pc), Bound: bound, Stop: r.Expired, MaxSteps: 4000,
 				Outcome: func(x *sched.Execution) string { return fmt.Sprint(len(x.Choices)) }}
 			res := e.Run()
 			total += res.Executions
